@@ -16,7 +16,7 @@ import re
 import sys
 
 sys.path.insert(0, os.path.dirname(os.path.abspath(__file__)))
-from rustlex import lex, match_close, Source, norm_ws, OPEN, LexError  # noqa: E402
+from rustlex import lex, match_close, Source, norm_ws, OPEN, CLOSE, LexError  # noqa: E402
 
 REPO = os.environ.get("VERIF_REPO", "/repo")
 VERIF = os.path.dirname(os.path.dirname(os.path.abspath(__file__)))
@@ -671,6 +671,123 @@ def desugar_let_chains(text, log, where):
         log.append(("R3", where, "let-chain of %d conditions desugared" % len(conds)))
 
 
+def eliminate_tail_continue(text, log, where):
+    """R20: inside a `for` body, a `continue` that is the last thing executed on its path through the body (tail position:
+    last statement of the body, recursively through trailing if/else branches and match arms) is replaced by the empty
+    block / dropped.  Equivalent: control reaches the end of the body, which is what `continue` does.  Verus does not
+    accept `continue` inside for-loops.  A `continue` anywhere else is left alone (Verus then rejects the file -> undecided)."""
+    toks = lex(text)
+    edits = []   # (start, end, replacement)
+
+    def tail_block(o, c):
+        """toks[o] = '{', toks[c] = matching '}'"""
+        k = c - 1
+        if k <= o:
+            return
+        if toks[k].text == ";":
+            if toks[k - 1].kind == "id" and toks[k - 1].text == "continue" and (k - 2 == o or toks[k - 2].text in (";", "}", "{")):
+                edits.append((toks[k - 1].start, toks[k].end, ""))
+            return
+        if toks[k].kind == "id" and toks[k].text == "continue" and (k - 1 == o or toks[k - 1].text in (";", "}", "{")):
+            edits.append((toks[k].start, toks[k].end, ""))
+            return
+        if toks[k].text != "}":
+            return
+        # block-like trailing statement: find its start (after the previous depth-0 `;` / block end that is not part of it)
+        groups = []  # depth-0 brace groups of the statement, scanning backwards
+        j = k
+        while j > o:
+            t = toks[j]
+            if t.kind == "p" and t.text in CLOSE:
+                # jump to its opener
+                depth = 0
+                m = j
+                while True:
+                    if toks[m].kind == "p" and toks[m].text in CLOSE:
+                        depth += 1
+                    elif toks[m].kind == "p" and toks[m].text in OPEN:
+                        depth -= 1
+                        if depth == 0:
+                            break
+                    m -= 1
+                if t.text == "}":
+                    groups.append((m, j))
+                j = m - 1
+                continue
+            if t.text == ";":
+                break
+            j -= 1
+        start = j + 1
+        # a preceding block-like statement may have been swallowed: keep only the groups from the last statement keyword on
+        kw = None
+        for q in range(start, k):
+            if toks[q].kind == "id" and toks[q].text in ("if", "match") and all(not (a < q < b) for (a, b) in groups):
+                # the first keyword at depth 0 whose groups extend to k
+                kw = q
+                break
+        if kw is None:
+            return
+        gs = sorted(g for g in groups if g[0] > kw)
+        # make sure every token between consecutive groups is `else` / `else if cond` (if) -- otherwise not one statement
+        if toks[kw].text == "if":
+            for (a, b), (a2, b2) in zip(gs, gs[1:]):
+                if toks[b + 1].text != "else":
+                    # statement boundary inside: restart after this group
+                    return tail_from(b + 1, c)
+            if len(gs) >= 1:
+                for (a, b) in gs:
+                    tail_block(a, b)
+        else:
+            if len(gs) != 1:
+                return tail_from(gs[-2][1] + 1, c) if len(gs) >= 2 else None
+            a, b = gs[0]
+            q = a + 1
+            while q < b:
+                # pattern up to `=>`
+                while q < b and toks[q].text != "=>":
+                    if toks[q].kind == "p" and toks[q].text in OPEN:
+                        q = match_close(toks, q)
+                    q += 1
+                if q >= b:
+                    break
+                q += 1
+                if toks[q].text == "{":
+                    e = match_close(toks, q)
+                    tail_block(q, e)
+                    q = e + 1
+                    if q < b and toks[q].text == ",":
+                        q += 1
+                    continue
+                if toks[q].kind == "id" and toks[q].text == "continue" and (toks[q + 1].text == "," or q + 1 == b):
+                    edits.append((toks[q].start, toks[q].end, "{}"))
+                while q < b and toks[q].text != ",":
+                    if toks[q].kind == "p" and toks[q].text in OPEN:
+                        q = match_close(toks, q)
+                    q += 1
+                q += 1
+
+    def tail_from(lo, c):
+        # toks[lo..c) are the remaining statements of a block closed at c: the token before lo acts as the opener
+        return tail_block(lo - 1, c)
+
+    for i, t in enumerate(toks):
+        if t.kind == "id" and t.text == "for" and not (i > 0 and toks[i - 1].text == ".") and not (i + 1 < len(toks) and toks[i + 1].text == "<"):
+            j = i + 1
+            while j < len(toks) and not (toks[j].kind == "p" and toks[j].text == "{"):
+                if toks[j].kind == "p" and toks[j].text in OPEN:
+                    j = match_close(toks, j)
+                j += 1
+            if j >= len(toks):
+                continue
+            tail_block(j, match_close(toks, j))
+    if not edits:
+        return text
+    for a, b, r in sorted(set(edits), reverse=True):
+        text = text[:a] + r + text[b:]
+    log.append(("R20", where, "%d tail-position `continue` in for-loop bodies removed" % len(set(edits))))
+    return text
+
+
 def rewrite_sql(u, fnpath, text, log):
     """R7: self.conn.query_row(<lit>, params![a..], <closure>)[.optional()|.or_else(map_no_row_to_none)] and
     self.conn.execute(<lit>, params![a..]) -> self.<stub>(a..); the stub (assumed contract, validated by engine B)
@@ -995,6 +1112,8 @@ def process_fn(u, fnpath, text, log, origin, canary=None):
         text = rebind_self(text, log, fnpath)
     if settings.get("letchains") == "nest":
         text = desugar_let_chains(text, log, fnpath)
+    if settings.get("tailcontinue") == "drop":
+        text = eliminate_tail_continue(text, log, fnpath)
     text = apply_substs(u, fnpath, text, log)
     text = name_wildcard_closure_params(text, log, fnpath)
     text = add_call_ghosts(u, fnpath, text, log)
@@ -1041,8 +1160,22 @@ def process_fn(u, fnpath, text, log, origin, canary=None):
             if depth_in is None:
                 raise Lost("for-loop header of loop #%d in %s has no `in`" % (n, fnpath))
             ins = kwoff + depth_in.end
-            text = text[:ins] + " verif_it:" + text[ins:]
-            off += len(" verif_it:")
+            if "verif_src" in ltext:
+                # R16b: hoist the iterated expression into `let verif_src<n> = EXPR;` in front of the loop (evaluated once,
+                # at the same point, as `for` does) so that the contract can capture the iterator's ghost state before
+                # the loop; `pre:` lines of the loop contract are placed between that let and the `for`
+                expr = text[ins:off].strip()
+                pre = [l[4:].strip() for l in ltext.split("\n") if l.startswith("pre:")]
+                ltext = "\n".join(l for l in ltext.split("\n") if not l.startswith("pre:"))
+                var = "verif_src%d" % n
+                head = ("let %s = %s;\n" % (var, expr)) + "".join("/*@loop %s*/ %s\n" % (vctag(u, lline), l) for l in pre)
+                newfor = text[kwoff:ins] + " verif_it: " + var + " "
+                text = text[:kwoff] + head + newfor + text[off:]
+                off = kwoff + len(head) + len(newfor)
+                log.append(("R16b", fnpath, "for-loop #%d: iterated expression hoisted into `let %s`" % (n, var)))
+            else:
+                text = text[:ins] + " verif_it:" + text[ins:]
+                off += len(" verif_it:")
             log.append(("R16", fnpath, "for-loop #%d iterator named verif_it" % n))
         tagged = "\n".join("/*@loop %s*/ %s" % (vctag(u, lline + 1 + k), l) for k, l in enumerate(ltext.split("\n")))
         text = text[:off] + "\n" + tagged + "\n" + text[off:]
